@@ -118,7 +118,8 @@ def run_frames(res, repo, rules, table, findings_known, replay=None, only_module
     res.trusted.add('frame analysis is syntactic and name based (sound only without reflection: rule `reflection` checks getattr/setattr/__dict__/exec/eval/globals are absent)')
     for f in bad:
         known = [k for k in findings_known if k['property'] == res.pid and k.get('frames') and
-                 k['frames'].get('rule') == f.rule and k['frames'].get('module') == f.module and k['frames'].get('function') == f.qual]
+                 k['frames'].get('rule') == f.rule and k['frames'].get('module') == f.module and k['frames'].get('function') == f.qual and
+                 k['frames'].get('statement_contains', '') in f.to_json().get('statement', '')]
         if known:
             line = 'KNOWN-FINDING: property=%s %s' % (res.pid, known[0]['what'])
             if line not in res.known:
